@@ -20,12 +20,13 @@ def payloadOf (k : String) : Payload :=
 structure St where
   now : Int := 0
   chain : List (String × Chain) := []
+  future : List (String × Int × Int) := []   -- terms waiting for the close of a running contract: (len, speed)
   ctl : List (String × Ctl) := []
   up : Bool := false
 
 def line (n : String) (c : Ctl) : String :=
   let r := c.run.isSome
-  s!"ctr {n} state={if r then "running" else "pending"} run={if r then 1 else 0} dest={match c.terms.dest with | some h => h | none => "-"} err={if c.err then 1 else 0}"
+  s!"ctr {n} state={if r then "running" else "pending"} run={if r then 1 else 0} dest={match c.terms.dest with | some h => h | none => "-"} err={if c.err then 1 else 0} hr={c.terms.speed} len={c.terms.len}"
 
 /-- an event at the very second a running watcher's contract ends: which of the two comes first is not
 determined -/
@@ -47,7 +48,7 @@ def step (st : St) (op : List String) : St × List String :=
   | "world" :: _ => (st, [])
   | "chain" :: n :: rest =>
     let c : Chain := { purchased := kvGet rest "state" = "1", startedAt := st.now - parseInt (kvGet rest "age"),
-                       len := parseInt (kvGet rest "len"), payload := if kvGet rest "state" = "1" then payloadOf (kvGet rest "payload") else .empty }
+                       len := parseInt (kvGet rest "len"), speed := parseInt (kvGet rest "hr"), payload := if kvGet rest "state" = "1" then payloadOf (kvGet rest "payload") else .empty }
     ({ st with chain := st.chain ++ [(n, c)] }, [])
   | ["startnode"] =>
     let st' := { st with up := true, ctl := st.chain.map fun (n, ch) => (n, boot ch st.now) }
@@ -56,12 +57,18 @@ def step (st : St) (op : List String) : St × List String :=
     let st' := { st with up := true, ctl := st.chain.map fun (n, ch) => (n, boot ch st.now) }
     (st', lines st')
   | "purchased" :: n :: rest =>
-    let ch : Chain := { purchased := true, startedAt := st.now, len := parseInt (kvGet rest "len"), payload := payloadOf (kvGet rest "payload") }
+    let old := getCh st n
+    let ch : Chain := { purchased := true, startedAt := st.now, len := if kvGet rest "len" = "" then old.len else parseInt (kvGet rest "len"),
+                        speed := if kvGet rest "hr" = "" then old.speed else parseInt (kvGet rest "hr"), payload := payloadOf (kvGet rest "payload") }
     let st1 := settleAll (setCh st n ch)
     let st2 := updCtl st1 n fun c => onPurchased c ch st.now
     (st2, lines st2)
   | ["closed", n] =>
-    let ch : Chain := { (getCh st n) with purchased := false, payload := .empty }
+    let ch0 : Chain := { (getCh st n) with purchased := false, payload := .empty }
+    let ch : Chain := match st.future.find? (·.1 = n) with
+      | some (_, l, sp) => { ch0 with len := l, speed := sp }
+      | none => ch0
+    let st := { st with future := st.future.filter (·.1 ≠ n) }
     let st1 := settleAll (setCh st n ch)
     let st2 := updCtl st1 n fun c => onClosed c ch
     (st2, lines st2)
@@ -69,6 +76,15 @@ def step (st : St) (op : List String) : St × List String :=
     let ch : Chain := { (getCh st n) with payload := payloadOf (kvGet rest "payload") }
     let st1 := settleAll (setCh st n ch)
     let st2 := updCtl st1 n fun c => onDestUpdated c ch st.now
+    (st2, lines st2)
+  | "termsupdate" :: n :: rest =>
+    let old := getCh st n
+    let l := if kvGet rest "len" = "" then old.len else parseInt (kvGet rest "len")
+    let sp := if kvGet rest "hr" = "" then old.speed else parseInt (kvGet rest "hr")
+    let st0 := if old.purchased then { st with future := (st.future.filter (·.1 ≠ n)) ++ [(n, l, sp)] }
+               else setCh st n { old with len := l, speed := sp }
+    let st1 := settleAll st0
+    let st2 := updCtl st1 n fun c => onTermsUpdated c (getCh st1 n)
     (st2, lines st2)
   | ["advance", s] =>
     let st1 := settleAll { st with now := st.now + parseInt s }
